@@ -1,4 +1,4 @@
-From DV Require Import Receive.
+From DV Require Import Receive ReportStatus.
 Require Extraction.
 Require Import ExtrOcamlBasic.
-Extraction "model.ml" apply_pack.
+Extraction "model.ml" apply_pack report parse_report parse_status.
